@@ -529,3 +529,93 @@ func ruleID7(c *Ctx) []Ob {
 	}
 	return o.list
 }
+
+// ---------------------------------------------------------------- LIST1
+
+// LIST1: the listing of the collections reports every catalog key it visits. Inside the loop
+// over the catalog keys, the name is appended to the result behind nothing but the test that
+// the key belongs to the catalog (HasPrefix), the cursor's validity and error tests: a
+// condition on the length of the key or of the name leaves a collection out (`len(key) >
+// len(prefix)` drops the collection whose name is the empty string).
+func ruleLIST1(c *Ctx) []Ob {
+	o := newObs(c, "LIST1")
+	fn := c.lookupMethod("", "DB", "ListCollections")
+	if fn == nil {
+		o.add(INFO, "listing", "-", "DB.ListCollections not found")
+		return o.list
+	}
+	n := 0
+	var fns []*ssa.Function
+	for f := range c.staticReach(fn) {
+		if c.pkgRel(f) == "" && rootFunc(f) != nil {
+			fns = append(fns, f)
+		}
+	}
+	fns = append(fns, fn)
+	sort.Slice(fns, func(i, j int) bool { return c.fname(fns[i]) < c.fname(fns[j]) })
+	seenFn := map[*ssa.Function]bool{}
+	for _, f := range fns {
+		if seenFn[f] {
+			continue
+		}
+		seenFn[f] = true
+		for _, b := range f.Blocks {
+			for _, in := range b.Instrs {
+				call, ok := in.(*ssa.Call)
+				if !ok {
+					continue
+				}
+				bi, isB := call.Call.Value.(*ssa.Builtin)
+				if !isB || bi.Name() != "append" {
+					continue
+				}
+				st, isSlice := call.Type().Underlying().(*types.Slice)
+				if !isSlice || !isStringType(st.Elem()) {
+					continue
+				}
+				n++
+				key := c.fname(f) + "/every catalog key visited is listed"
+				bad := ""
+				for _, dc := range dominatingConds(f, b) {
+					cond := dc.cond
+					for {
+						u, ok := cond.(*ssa.UnOp)
+						if !ok || u.Op != token.NOT {
+							break
+						}
+						cond = u.X
+					}
+					switch x := cond.(type) {
+					case *ssa.Call:
+						continue // HasPrefix, Valid, errors.Is ...
+					case *ssa.BinOp:
+						if _, _, isNil := nilTest(x); isNil {
+							continue
+						}
+						// a comparison of lengths decides whether the name is listed
+						usesLen := false
+						for _, opd := range []ssa.Value{x.X, x.Y} {
+							if lc, ok := opd.(*ssa.Call); ok {
+								if lb, ok := lc.Call.Value.(*ssa.Builtin); ok && lb.Name() == "len" {
+									usesLen = true
+								}
+							}
+						}
+						if usesLen {
+							bad = relPath(c, x.Pos())
+						}
+					}
+				}
+				if bad != "" {
+					o.add(VIOLATED, key, relPath(c, call.Pos()), "whether a catalog key contributes its name depends on a comparison of lengths (%s): the collection whose name is empty (its key is the bare prefix) - or whatever the comparison leaves out - exists, answers HasCollection, and is missing from ListCollections", bad)
+				} else {
+					o.add(OK, key, relPath(c, call.Pos()), "the name is appended behind the prefix, validity and error tests only")
+				}
+			}
+		}
+	}
+	if n == 0 {
+		o.add(INFO, "listing", "-", "no append of a name found under DB.ListCollections")
+	}
+	return o.list
+}
